@@ -79,7 +79,12 @@ pub fn run_prop(def: &PropDef, tier: &str) -> i32 {
         pr.assume(a);
     }
     let budget = if tier == "thorough" { def.budget.1 } else { def.budget.0 };
-    let spaces = (def.spaces)(tier, pr.seed);
+    let mut spaces = (def.spaces)(tier, pr.seed);
+    if let Ok(only) = std::env::var("VERIF_ONLY") {
+        // debugging aid, never used by a registered command: restrict to spaces whose name contains the string
+        spaces.retain(|s| s.name().contains(&only));
+        pr.notes.push(format!("DEBUG RUN restricted to spaces containing '{}'", only));
+    }
     for s in &spaces {
         pr.explore(s.as_ref(), budget);
     }
